@@ -12,15 +12,17 @@ PROP = "C08"
 LEVEL = "exploration"
 BRIEF_KEYS = ("font",)
 RULE = (
-    "case = scenario (2-8 sources in 1-3 directories, colour format, options as flags or TOML, sometimes two "
-    "configurations or a two-master variable font) executed once as reference (hash seed 0, sorted argv, -j1 manifest "
-    "order, identity readdir, cwd = project, default build dir) and as 3-6 variants that redraw PYTHONHASHSEED (the "
-    "worker interpreter is started with it), argv permutation, readdir permutation, -j 1..16, scheduling policy and "
-    "priorities, exec-at-start/finish, cwd (project / parent / child / sibling), build dir (default, absolute, nested, "
-    "through a symlink), srcs as glob vs list, relative vs absolute source paths. Oracle: same exit status and "
-    "byte-identical output fonts in every execution; no unordered or undeclared file access in any execution "
-    "(happens-before monitor). distinct = distinct (scenario kind, format, variant dimension values, execution-order "
-    "signature); non-trivial = a variant that differs from the reference in >= 2 dimensions and reached write_font."
+    "case = scenario (2-8 sources, one in eight 33-44, in 1-3 directories, sometimes an 11-14 codepoint sequence; colour format; "
+    "options as flags or TOML; sometimes two configurations - also competing for shared bitmaps, then with fixed order - or a "
+    "two-master variable font) executed once as reference (hash seed 0, sorted argv, -j1 manifest order, identity readdir, cwd = "
+    "project, default build dir, UTC) and as 4-6 variants that redraw PYTHONHASHSEED (the worker interpreter is started with it), "
+    "argv / configuration-file / readdir / file-creation order, -j 1..16, scheduling policy and priorities, exec-at-start/finish, "
+    "cwd (project / parent / child / sibling), build dir (default, absolute, nested, through a symlink), srcs as glob vs list, "
+    "relative vs absolute source paths, time zone, and optionally a used build directory (earlier build with rotated contents or "
+    "other option values). Oracle: same exit status and byte-identical output fonts in every execution; no file touched by two "
+    "steps that the manifest does not order (declared outputs, persistent scratch, transient scratch seen through inotify). "
+    "distinct = distinct (scenario kind, format, variant dimension values, execution-order signature); non-trivial = a variant "
+    "that differs from the reference in >= 2 dimensions and reached write_font."
 )
 ASSUMPTIONS = [
     "all steps of one simulated invocation share one hash seed (fork of one zygote); the seed is varied across executions",
